@@ -466,7 +466,6 @@ func runRace(c caseT, raw json.RawMessage) (r resT) {
 		return r
 	}
 	defer os.RemoveAll(dir)
-	info := ckinds[c.CKind]
 	for p := 0; p < c.Procs; p++ {
 		logPath := filepath.Join(dir, fmt.Sprintf("log%d", p))
 		cmd := exec.Command(os.Args[0], "-oneshot")
@@ -523,7 +522,7 @@ func runRace(c caseT, raw json.RawMessage) (r resT) {
 				if i := strings.Index(st, "fatal error: "); i >= 0 {
 					msg = strings.SplitN(st[i+13:], "\n", 2)[0]
 				}
-				r.add(false, map[string]any{"kind": info.kind, "divergence": "data_race", "location": locationOf([]string{frame})},
+				r.add(false, map[string]any{"divergence": "data_race", "location": locationOf([]string{frame})},
 					map[string]any{"ckind": c.CKind, "origin": c.Origin, "ops": progNames(c.Progs), "goroutines": c.N,
 						"fatal": msg, "frame": frame, "stderr": clip(st)})
 			default:
@@ -544,7 +543,7 @@ func runRace(c caseT, raw json.RawMessage) (r resT) {
 					r.HarnessErr = "data race inside the harness itself: " + clip(rep.text)
 					return r
 				}
-				r.add(false, map[string]any{"kind": info.kind, "divergence": "data_race", "location": rep.location},
+				r.add(false, map[string]any{"divergence": "data_race", "location": rep.location},
 					map[string]any{"ckind": c.CKind, "origin": c.Origin, "ops": progNames(c.Progs), "goroutines": c.N,
 						"access_a": rep.a, "access_b": rep.b, "report": clip(rep.text)})
 			}
